@@ -268,16 +268,24 @@ pub fn cmd_text_fields(a: &HashMap<String, String>) -> i32 {
     let mut n = 0usize;
     // "switching": a code page switch at every character; "dbcs-caret": double-byte characters whose trail byte is '^' (an
     // ordinary lead byte and one of the IBM extension rows) followed by code page letters
-    let flavours: [(&str, &str, usize); 8] = [
-        ("ascii", "a", 1),
-        ("latin1", "\u{e9}", 1),
-        ("cyrillic", "\u{448}", 1),
-        ("dbcs", "\u{ff0f}", 2),
-        ("mixed", "a\u{448}\u{e9}", 1),
-        ("switching", "\u{11b}\u{448}", 1),
-        ("dbcs-caret", "\u{ff0f}L\u{9348}K", 1),
+    // (name, what the text starts with, the unit that is repeated after it)
+    let flavours: [(&str, &str, &str); 13] = [
+        ("ascii", "", "a"),
+        ("latin1", "", "\u{e9}"),
+        ("cyrillic", "", "\u{448}"),
+        ("dbcs", "", "\u{ff0f}"),
+        ("mixed", "", "a\u{448}\u{e9}"),
+        ("switching", "", "\u{11b}\u{448}"),
+        ("dbcs-caret", "", "\u{ff0f}L\u{9348}K"),
         // caret sequences LFS keeps in the text, between characters of different code pages (^^8 is not "back to Latin-1")
-        ("carets", "\u{448}^^8\u{e9}^8\u{448}^^", 1),
+        ("carets", "", "\u{448}^^8\u{e9}^8\u{448}^^"),
+        // texts whose code page bytes begin like a byte-order mark (FF FE, FE FF, EF BB BF), at the start of the field and at
+        // the start of a code page segment: they are ordinary characters of their page
+        ("bom-le", "\u{ff}\u{fe}", "a"),
+        ("bom-be", "\u{fe}\u{ff}", "a"),
+        ("bom-utf8", "\u{ef}\u{bb}\u{bf}", "a"),
+        ("bom-cyrillic", "\u{44f}\u{44e}", "\u{448}"),
+        ("bom-segment", "a\u{44f}\u{44e}b\u{11b}\u{ff}\u{fe}", "c"),
     ];
     for f in FIELDS {
         // where does the field start ? first byte that changes between an empty and a non-empty text
@@ -299,13 +307,13 @@ pub fn cmd_text_fields(a: &HashMap<String, String>) -> i32 {
         };
         // variable fields: well beyond the cap also in the quick tier (lengths above 252 wrap 8-bit arithmetic)
         let maxlen = if thorough { 2 * f.n } else if f.rule.starts_with("var") { f.n + 24 } else { f.n + 2 };
-        for (fl, unit, _) in flavours.iter() {
+        for (fl, pre, unit) in flavours.iter() {
             if f.raw && *fl != "ascii" {
                 continue;
             }
             let mut k = 0usize;
             loop {
-                let text: String = unit.repeat(k);
+                let text: String = format!("{pre}{}", unit.repeat(k));
                 let enc: Vec<u8> = if f.raw { text.as_bytes().to_vec() } else { codepages::to_lossy_bytes(&text).to_vec() };
                 if enc.len() > maxlen + 4 {
                     break;
